@@ -7,6 +7,7 @@ package c04
 
 import (
 	"sort"
+	"strings"
 
 	"github.com/trajectoryjp/spatial_id_go/v4/common/object"
 	"github.com/trajectoryjp/spatial_id_go/v4/integrate"
@@ -48,13 +49,17 @@ func withinBound(ids []string, H, V int64) bool {
 			MV = e.VZoom()
 		}
 	}
-	if 2*max64(0, MH-H)+max64(0, MV-V) > 12 {
+	if MH-H > 40 || MV-V > 40 {
 		return false
 	}
 	var work int64
 	for _, e := range es {
 		if e.HZoom() >= H && e.VZoom() >= V {
-			work += (int64(1) << uint(2*(MH-e.HZoom()))) * (int64(1) << uint(MV-e.VZoom()))
+			sh := 2*(MH-e.HZoom()) + (MV - e.VZoom())
+			if sh > 20 { // 2^21 > 2000
+				return false
+			}
+			work += int64(1) << uint(sh)
 		}
 	}
 	return work <= 2000
@@ -82,6 +87,49 @@ func fnMergeSid() *run.Fn {
 	}}
 }
 
+// MergeTwice: the implementation applied to its own output (idempotence observed on the real function)
+func fnMergeTwice() *run.Fn {
+	return &run.Fn{Name: "MergeTwice", Invoke: func(a []w.Val) w.Val {
+		ids, H, V := w.AsStrs(a[0]), w.AsInt(a[1]), w.AsInt(a[2])
+		if !withinBound(ids, H, V) {
+			return w.S(skipped)
+		}
+		out1, err := integrate.MergeExtendedSpatialIds(ids, H, V)
+		if err != nil {
+			return w.WithErr(w.Strs(out1), err)
+		}
+		if !withinBound(out1, H, V) {
+			return w.L(w.Strs(out1), w.S(skipped))
+		}
+		out2, err := integrate.MergeExtendedSpatialIds(out1, H, V)
+		return w.L(w.Strs(out1), w.WithErr(w.Strs(out2), err))
+	}}
+}
+
+// MergeShifted: the implementation on a list and on the same list moved vertically by k whole zoom-0 cells (f + k*2^v)
+func fnMergeShifted() *run.Fn {
+	return &run.Fn{Name: "MergeShifted", Invoke: func(a []w.Val) w.Val {
+		ids, H, V, k := w.AsStrs(a[0]), w.AsInt(a[1]), w.AsInt(a[2]), w.AsInt(a[3])
+		if !withinBound(ids, H, V) {
+			return w.S(skipped)
+		}
+		sh := make([]string, len(ids))
+		for i, s := range ids {
+			e, err := object.NewExtendedSpatialID(s)
+			if err != nil || e.VZoom() < 0 || e.VZoom() > 35 || k > 4 || k < -4 {
+				return w.S("bad-script")
+			}
+			sh[i] = EID(e.HZoom(), e.X(), e.Y(), e.VZoom(), e.Z()+k*(int64(1)<<uint(e.VZoom())))
+		}
+		out1, err := integrate.MergeExtendedSpatialIds(ids, H, V)
+		if err != nil {
+			return w.WithErr(w.Strs(out1), err)
+		}
+		out2, err := integrate.MergeExtendedSpatialIds(sh, H, V)
+		return w.L(w.Strs(out1), w.WithErr(w.Strs(out2), err))
+	}}
+}
+
 func fnHigher() *run.Fn {
 	return &run.Fn{Name: "Higher", Invoke: func(a []w.Val) w.Val {
 		e, err := object.NewExtendedSpatialID(w.AsStr(a[0]))
@@ -97,14 +145,16 @@ func fnHigher() *run.Fn {
 // Objects are built through the exported constructors, the Merges are performed in order on these very objects (an argument object
 // is reused for several receivers), and every object is read back before the first and after every Merge.
 func helperScript(a []w.Val) w.Val {
-	us, hs, ops := w.AsList(a[0]), w.AsList(a[1]), w.AsList(a[2])
+	us, hs, ops, sets := w.AsList(a[0]), w.AsList(a[1]), w.AsList(a[2]), w.AsList(a[3])
 	var units []*integrate.UnitDividedSpatialID
+	var origs []*object.ExtendedSpatialID // the caller's objects handed to the constructor
 	for _, u := range us {
 		f := w.AsList(u)
 		e, err := object.NewExtendedSpatialID(w.AsStr(f[0]))
 		if err != nil {
 			return w.S("bad-script")
 		}
+		origs = append(origs, e)
 		units = append(units, integrate.NewUnitDividedSpatialID(e, w.AsInt(f[1]), w.AsInt(f[2])))
 	}
 	var highs []*integrate.HighSpatialID
@@ -143,10 +193,28 @@ func helperScript(a []w.Val) w.Val {
 		highs[r].Merge(highs[g])
 		snaps = append(snaps, snapshot())
 	}
+	// setter steps on constructed units, then read back the ORIGINAL argument objects and the units
+	for _, st := range sets {
+		f := w.AsList(st)
+		j := w.AsInt(f[0])
+		if j < 0 || j >= int64(len(units)) {
+			return w.S("bad-script")
+		}
+		units[j].SetX(w.AsInt(f[1]))
+		units[j].SetZoom(w.AsInt(f[2]), w.AsInt(f[3]))
+	}
+	ov, uv := make([]string, len(origs)), make([]string, len(units))
+	for i := range origs {
+		ov[i], uv[i] = origs[i].ID(), units[i].ID()
+	}
+	snaps = append(snaps, w.L(w.Strs(ov), w.Strs(uv)))
 	return snaps
 }
 
 func fnHelpers(name string) *run.Fn { return &run.Fn{Name: name, Invoke: helperScript} }
+
+// setterCount: deterministic from the script shape (the generator's PRNG is not in scope here): 0, 1 or 2 setter steps
+func setterCount(nu, no int) int { return (nu + 2*no) % 3 }
 
 type uSpec struct {
 	e      eid
@@ -165,7 +233,18 @@ func runHelpers(r *run.Runner, fn string, us []uSpec, hs []hSpec, ops [][2]int64
 	for i, o := range ops {
 		ov[i] = w.L(w.I(o[0]), w.I(o[1]))
 	}
-	r.Run(run.Case{Prop: "C04", Fn: fn, Tags: append([]string{"helpers"}, tags...), Trivial: len(ops) == 0, Args: []w.Val{uv, hv, ov}})
+	// setter steps: every script ends with 0..2 of them on random units
+	sv := w.List{}
+	if len(us) > 0 {
+		for n := setterCount(len(us), len(ops)); n > 0; n-- {
+			j := int64((n*7 + len(ops)) % len(us))
+			sv = append(sv, w.L(w.I(j), w.I(int64(n)*3+us[j].e.x%5), w.I(us[j].e.h+int64(n)), w.I(us[j].e.v-1)))
+		}
+	}
+	if len(sv) > 0 {
+		tags = append(tags, "setters")
+	}
+	r.Run(run.Case{Prop: "C04", Fn: fn, Tags: append([]string{"helpers"}, tags...), Trivial: len(ops) == 0 && len(sv) == 0, Args: []w.Val{uv, hv, ov, sv}})
 }
 
 // aggregate scenario: an aggregate of n of the children of t (merged into the first of them) is then used, unchanged, as the
@@ -436,7 +515,7 @@ func spread(g *Gen) int64 {
 // neighbour target voxels of t (same zooms) that are valid, t first
 func around(g *Gen, t eid) eid {
 	c := t
-	switch g.Intn(6) {
+	switch g.Intn(10) {
 	case 0:
 		c.f++
 	case 1:
@@ -445,6 +524,12 @@ func around(g *Gen, t eid) eid {
 		c.x++
 	case 3:
 		c.y--
+	case 4:
+		c.x--
+	case 5:
+		c.y++
+	case 6:
+		c.x, c.y, c.f = c.x+g.Int63n(3)-1, c.y+g.Int63n(3)-1, c.f+g.Int63n(3)-1
 	}
 	if c.valid() {
 		return c
@@ -473,7 +558,11 @@ func work(es []eid, H, V int64) int64 {
 	var s int64
 	for _, e := range es {
 		if e.h >= H && e.v >= V {
-			s += (int64(1) << uint(2*(MH-e.h))) * (int64(1) << uint(MV-e.v))
+			sh := 2*(MH-e.h) + (MV - e.v)
+			if sh > 20 {
+				return 1 << 40
+			}
+			s += int64(1) << uint(sh)
 		}
 	}
 	return s
@@ -529,10 +618,19 @@ func genCaseAt(g *Gen, sameZoom bool, fH, fV int64) gcase {
 				return z, z
 			}
 			h, v := H+g.Int63n(sh+1), V+g.Int63n(sv+1)
-			if g.Chance(0.12) && H > 0 { // coarser than the target on one axis: ineligible
+			switch p := g.Intn(100); {
+			case p < 10 && H > 0: // coarser than the target on one axis: ineligible
 				h = H - 1 - g.Int63n(min64(H, 2))
-			} else if g.Chance(0.12) && V > 0 {
+			case p < 20 && V > 0:
 				v = V - 1 - g.Int63n(min64(V, 2))
+			case p < 24 && H > 0 && V > 0: // coarser on both axes
+				h, v = H-1-g.Int63n(min64(H, 2)), V-1-g.Int63n(min64(V, 2))
+			case p < 28 && H > 0: // far coarser (never subdivided by the function)
+				h = g.Int63n(H)
+			case p < 31 && H > 0 && V+sv < 35: // ineligible and alone at the top vertical zoom: it sets MV for everybody
+				h, v = H-1, V+sv+1+g.Int63n(min64(35-V-sv, 2))
+			case p < 34 && V > 0 && H+sh < 35:
+				h, v = H+sh+1, V-1
 			}
 			return h, v
 		}
@@ -732,6 +830,9 @@ func runHigher(r *run.Runner, id string, hd, vd int64, tags []string) {
 // another list at the same target zooms, and proper subsets / single members of a complete set merged just before.
 func related(r *run.Runner, g *Gen, c gcase, sid bool) {
 	emit := func(d gcase, tag string) {
+		if !withinBound(d.ids, d.H, d.V) { // another target zoom makes more members eligible: never emit a case the guard refuses
+			return
+		}
 		d.tags = append(append([]string{}, d.tags...), tag)
 		if sid {
 			runSid(r, d)
@@ -835,6 +936,131 @@ func subsets(r *run.Runner, g *Gen, c gcase, sid bool) {
 	}
 }
 
+// respell: valid IDs in spellings that strconv.ParseInt accepts but ID() never prints ("+1", "007", "-0", "+0")
+func respell(g *Gen, id string) string {
+	fs := strings.Split(id, "/")
+	for i := range fs {
+		switch g.Intn(6) {
+		case 0:
+			if !strings.HasPrefix(fs[i], "-") {
+				fs[i] = "+" + fs[i]
+			}
+		case 1:
+			if strings.HasPrefix(fs[i], "-") {
+				fs[i] = "-00" + fs[i][1:]
+			} else {
+				fs[i] = "0" + fs[i]
+			}
+		case 2:
+			if fs[i] == "0" {
+				fs[i] = []string{"-0", "+0", "000"}[g.Intn(3)]
+			}
+		}
+	}
+	return strings.Join(fs, "/")
+}
+
+// special: streams the structured generator does not reach
+func special(r *run.Runner, g *Gen) {
+	switch p := g.Intn(20); {
+	case p < 4: // far target under same-zoom inputs: cheap for the function (one unit cell per member), incl. the int64 threshold wrap
+		// (exponent 2*(MH-H)+(MV-V) >= 63) where the count test can never succeed
+		h, v := g.Zoom(), g.Zoom()
+		H, V := g.ZoomBelow(h), g.ZoomBelow(v)
+		if g.Chance(0.4) {
+			h, v = g.Pick(32, 31, 35, 33, 20), g.Pick(0, 1, 35, 23, 24)
+			H, V = g.Pick(0, 1), g.Pick(0, 1)
+			if V > v {
+				V = v
+			}
+		}
+		t := eid{h, g.HIndex(h), g.HIndex(h), v, g.VIndex(v)}
+		es := []eid{t}
+		for n := g.Intn(12); n > 0; n-- {
+			c := at(g, around(g, t), h, v)
+			if c.valid() {
+				es = append(es, c)
+			}
+		}
+		tags := []string{"far-target", Tag("exp=%d", min64(2*(h-H)+(v-V), 64))}
+		if 2*(h-H)+(v-V) >= 63 {
+			tags = append(tags, "threshold-wraps")
+		}
+		runExt(r, gcase{ids: strs(es), H: H, V: V, tags: tags, es: es}, len(es) < 2)
+	case p < 5: // the empty list
+		H, V := g.Zoom(), g.Zoom()
+		runExt(r, gcase{ids: []string{}, H: H, V: V, tags: []string{"empty-list"}}, true)
+		r.Run(run.Case{Prop: "C04", Fn: "MergeSpatialIds", Tags: []string{"empty-list", "sid"}, Trivial: true, Args: []w.Val{w.Strs([]string{}), w.I(H)}})
+	case p < 7: // valid IDs in non-canonical spelling
+		c := genCase(g, false)
+		for i := range c.ids {
+			c.ids[i] = respell(g, c.ids[i])
+		}
+		c.tags = append(c.tags, "non-canonical-spelling")
+		c.es = nil
+		runExt(r, c, len(c.ids) < 2)
+	case p < 10: // several complete targets side by side (horizontal and vertical neighbours), some with one member missing
+		H, V := g.Int63n(34)+1, g.Int63n(35)
+		t := eid{H, g.HIndex(H), g.HIndex(H), V, g.VIndex(V)}
+		a, b := g.Int63n(2), g.Int63n(2)
+		if a+b == 0 {
+			a = 1
+		}
+		var es []eid
+		nt := 0
+		for dx := int64(0); dx < 2; dx++ {
+			for dy := int64(0); dy < 2; dy++ {
+				for df := int64(-1); df < 1; df++ {
+					u := eid{H, t.x + dx, t.y + dy, V, t.f + df}
+					if !u.valid() || g.Chance(0.35) {
+						continue
+					}
+					ch := allDesc(u, a, b)
+					if g.Chance(0.3) {
+						k := g.Intn(len(ch))
+						ch = append(ch[:k], ch[k+1:]...)
+					}
+					es = append(es, ch...)
+					nt++
+				}
+			}
+		}
+		if len(es) == 0 {
+			return
+		}
+		reorder(g, es, g.Intn(3))
+		runExt(r, gcase{ids: strs(es), H: H, V: V, tags: []string{"adjacent-targets", Tag("targets=%d", nt)}, es: es}, false)
+	case p < 11: // long lists: one to two hundred voxels at one zoom pair (one unit cell each), target one or two levels coarser
+		h, v := g.Int63n(30)+5, g.Int63n(30)+5
+		H, V := h-g.Int63n(2), v-g.Int63n(2)
+		if H == h && V == v {
+			H = h - 1
+		}
+		t := eid{h, g.HIndex(h), g.HIndex(h), v, g.VIndex(v)}
+		var es []eid
+		n := 60 + g.Intn(160)
+		for i := 0; i < n; i++ {
+			c := eid{h, t.x + g.Int63n(8) - 4, t.y + g.Int63n(8) - 4, v, t.f + g.Int63n(6) - 3}
+			if c.valid() {
+				es = append(es, c)
+			}
+		}
+		if len(es) == 0 {
+			return
+		}
+		runExt(r, gcase{ids: strs(es), H: H, V: V, tags: []string{"long-list", Tag("len~%d0", len(es)/50*5)}, es: es}, false)
+	case p < 16: // Go(Go(x)) on the implementation
+		c := genCase(g, false)
+		r.Run(run.Case{Prop: "C04", Fn: "MergeTwice", Tags: append(c.tags, "metamorphic", "twice"), Trivial: len(c.ids) < 2,
+			Args: []w.Val{w.Strs(c.ids), w.I(c.H), w.I(c.V)}})
+	default: // vertical translation on the implementation, very often across ground level
+		c := genCase(g, false)
+		k := g.Pick(1, -1, 2, -2, 1, -1, 3)
+		r.Run(run.Case{Prop: "C04", Fn: "MergeShifted", Tags: append(c.tags, "metamorphic", "shifted", Tag("k=%d", k)), Trivial: len(c.ids) < 2,
+			Args: []w.Val{w.Strs(c.ids), w.I(c.H), w.I(c.V), w.I(k)}})
+	}
+}
+
 // exhaustive small scope (thorough tier): every subset of the 8 children (dh = 1, dv = 1) of a voxel, plus one noise voxel sometimes
 func exhaustive(r *run.Runner, g *Gen) {
 	targets := []eid{{0, 0, 0, 0, 0}, {0, 0, 0, 0, -1}, {1, 1, 0, 1, -1}, {1, 0, 1, 1, -2}, {3, 5, 2, 2, -1}, {5, 31, 0, 7, -128},
@@ -901,9 +1127,9 @@ func fixedSequences(r *run.Runner) {
 }
 
 func init() {
-	Scale["C04"] = 16000
+	Scale["C04"] = 10000
 	Registry["C04"] = func(r *run.Runner, g *Gen, n int) {
-		r.Register(fnMergeExt(), fnMergeSid(), fnHigher(), fnHelpers("HighSpatialIDOps"), fnHelpers("MergeHelperSequence"))
+		r.Register(fnMergeExt(), fnMergeSid(), fnHigher(), fnMergeTwice(), fnMergeShifted(), fnHelpers("HighSpatialIDOps"), fnHelpers("MergeHelperSequence"))
 		if n == 0 {
 			return
 		}
@@ -973,6 +1199,8 @@ func init() {
 				}
 				c.tags = []string{"off-grid-id"}
 				runExt(r, c, true)
+			case i%6 == 2: // far targets, empty list, spellings, adjacent targets, long lists, metamorphic pairs
+				special(r, g)
 			case i%24 == 9: // the exported merge helpers as stand-alone API
 				genHelpers(r, g)
 			case i%10 == 7: // ExtendedSpatialID.Higher alone
